@@ -56,6 +56,70 @@ Definition unknown_ok (u : unk) : bool :=
   existsb (fun d => String.eqb (fst d) (u_func u) && String.prefix (snd d) (u_what u)) discharged_unknowns.
 
 (* ---------------------------------------------------------------------- *)
+(* atomicity groups and counters (Policy.groups / Policy.counters) over the scoped table *)
+
+Definition mkind_matches (mk : mkind) (k : akind) : bool :=
+  match mk with MAny => true | MRead => negb (is_write k) | MWrite => is_write k end.
+
+Definition member_matches (m : member) (r : srow) : bool :=
+  String.eqb (m_type m) (r_type r) && String.eqb (m_field m) (r_field r) && mkind_matches (m_kind m) (r_kind r).
+
+(* a field whose protection is a lock (or unknown): InitOnly and Atomic fields need no section *)
+Definition protected_field (t f : string) : bool :=
+  match field_policy t f with Some InitOnly | Some Atomic => false | _ => true end.
+
+Definition relevant (g : group) (r : srow) : bool :=
+  (g_all g && protected_field (r_type r) (r_field r)) || existsb (fun m => member_matches m r) (g_members g).
+
+Definition unlocked_ok (g : group) (r : srow) : bool :=
+  existsb (fun m => member_matches m r && m_unlocked_ok m) (g_members g).
+
+Fixpoint strs_eqb (a b : list string) : bool :=
+  match a, b with
+  | [], [] => true
+  | x :: a', y :: b' => String.eqb x y && strs_eqb a' b'
+  | _, _ => false
+  end.
+
+(* the row certainly runs inside section instance s of lock l, and in no other *)
+Definition row_in_section (l s : string) (r : srow) : bool :=
+  strs_eqb (sec_of l (r_sec r)) [s] && holds (r_must r) l false.
+
+Definition row_ok (g : group) (s : string) (r : srow) : bool :=
+  row_in_section (g_lock g) s r || (unlocked_ok g r && is_nil (sec_of (g_lock g) (r_sec r))).
+
+Definition group_rows (g : group) (tbl : list srow) : list srow :=
+  filter (fun r => String.eqb (r_root r) (g_fn g) && relevant g r) tbl.
+
+Fixpoint first_id (l : string) (rows : list srow) : option string :=
+  match rows with
+  | [] => None
+  | r :: rest => match sec_of l (r_sec r) with [s] => Some s | _ => first_id l rest end
+  end.
+
+(* all members of the group run in ONE section instance of the group's lock, and every explicit member occurs in it *)
+Definition group_ok (tbl : list srow) (g : group) : bool :=
+  match first_id (g_lock g) (group_rows g tbl) with
+  | None => false
+  | Some s =>
+      forallb (row_ok g s) (group_rows g tbl) &&
+      forallb (fun m => existsb (fun r => member_matches m r && row_in_section (g_lock g) s r) (group_rows g tbl)) (g_members g)
+  end.
+
+Fixpoint lookup_counter (t f : string) (l : list (string * string * list aop * list string * string)) : option (list aop) :=
+  match l with
+  | [] => None
+  | (t', f', ops, _, _) :: r => if String.eqb t t' && String.eqb f f' then Some ops else lookup_counter t f r
+  end.
+
+(* a counter field is only touched by its allowed sync/atomic operations (or while the object is fresh) *)
+Definition counter_ok (s : site) : bool :=
+  match lookup_counter (s_type s) (s_field s) counters with
+  | None => true
+  | Some ops => s_fresh s || (s_atomic s && existsb (aop_eqb (s_op s)) ops)
+  end.
+
+(* ---------------------------------------------------------------------- *)
 (* small facts *)
 
 Lemma mode_eqb_eq : forall a b, mode_eqb a b = true -> a = b.
@@ -271,3 +335,85 @@ Section TableDeadlock.
       repeat match goal with |- context [if ?c then _ else _] => destruct c end; lia.
   Qed.
 End TableDeadlock.
+
+(* ---------------------------------------------------------------------- *)
+(* atomicity groups: from the scoped table to DRF.group_atomic *)
+
+Lemma strs_eqb_eq : forall a b, strs_eqb a b = true -> a = b.
+Proof.
+  induction a as [|x a IH]; destruct b as [|y b]; simpl; intros H; try discriminate; auto.
+  apply andb_true_iff in H. destruct H as [H1 H2]. apply String.eqb_eq in H1. f_equal; auto.
+Qed.
+
+(* what group_ok establishes about the table: one section id for every sectioned member row of the root *)
+Lemma group_ok_one_section : forall tbl g, group_ok tbl g = true ->
+    exists s, forall r, In r tbl -> r_root r = g_fn g -> relevant g r = true ->
+                forall id, sec_of (g_lock g) (r_sec r) = [id] -> id = s.
+Proof.
+  intros tbl g H. unfold group_ok in H.
+  destruct (first_id (g_lock g) (group_rows g tbl)) as [s|]; [|discriminate].
+  apply andb_true_iff in H. destruct H as [H _]. exists s.
+  intros r Hin Hroot Hrel id Hid. rewrite forallb_forall in H.
+  assert (Hg : In r (group_rows g tbl)).
+  { unfold group_rows. apply filter_In. split; auto. rewrite Hroot, String.eqb_refl. simpl. exact Hrel. }
+  specialize (H r Hg). unfold row_ok in H. apply orb_true_iff in H. destruct H as [H | H].
+  - unfold row_in_section in H. apply andb_true_iff in H. destruct H as [H _].
+    apply strs_eqb_eq in H. rewrite Hid in H. inversion H. reflexivity.
+  - apply andb_true_iff in H. destruct H as [_ H]. rewrite Hid in H. discriminate.
+Qed.
+
+Section TableGroup.
+  Variables thread lockinst loc : Type.
+  Variable tr : trace thread lockinst loc.
+  Variable tbl : list srow.
+  Variable g : group.
+  (* one execution of the group's root function by thread t, on the objects owned by lock instance l *)
+  Variable t : thread.
+  Variable l : lockinst.
+  Variable members : nat -> Prop.                       (* indices of its member access events *)
+  Variable row_of : nat -> option srow.                 (* the scoped row describing a member event *)
+  Variable opened : string -> option (nat * mode).      (* where this execution opened section instance id *)
+
+  (* the translator's claim about this execution *)
+  Definition group_conforms : Prop :=
+    forall i, members i ->
+      exists r, row_of i = Some r /\ In r tbl /\ r_root r = g_fn g /\ relevant g r = true /\
+                forall id, sec_of (g_lock g) (r_sec r) = [id] ->
+                  exists k m, opened id = Some (k, m) /\ in_section thread lockinst loc tr k t l m i.
+
+  Definition sectioned (i : nat) : Prop :=
+    exists r id, row_of i = Some r /\ sec_of (g_lock g) (r_sec r) = [id].
+
+  (* between two member accesses of the execution, another thread that follows the lock discipline can only
+     read, and only if the group itself runs in a read section *)
+  Theorem table_group_atomic :
+      group_ok tbl g = true -> consistent thread lockinst loc tr -> group_conforms ->
+      forall i j, members i -> members j -> sectioned i -> sectioned j ->
+      forall w u x wr a f, i <= w -> w <= j ->
+        ev thread lockinst loc tr w = Some (EAcc thread lockinst loc u x wr a f) -> u <> t ->
+        holds_for thread lockinst loc tr w u l wr ->
+        wr = false /\ exists k, in_section thread lockinst loc tr k t l MR i /\ in_section thread lockinst loc tr k t l MR j.
+  Proof.
+    intros Hok Hc Hconf i j Mi Mj [ri [idi [Ri Si]]] [rj [idj [Rj Sj]]] w u x wr a f Hiw Hwj Ew Hut Hh.
+    destruct (group_ok_one_section tbl g Hok) as [s Hs].
+    destruct (Hconf i Mi) as [ri' [Ri' [Ini [Rooti [Reli Hi]]]]].
+    destruct (Hconf j Mj) as [rj' [Rj' [Inj [Rootj [Relj Hj]]]]].
+    rewrite Ri in Ri'. inversion Ri'; subst ri'. rewrite Rj in Rj'. inversion Rj'; subst rj'.
+    assert (idi = s) by (exact (Hs ri Ini Rooti Reli idi Si)).
+    assert (idj = s) by (exact (Hs rj Inj Rootj Relj idj Sj)). subst idi idj.
+    destruct (Hi s Si) as [k [m [Ok Seci]]]. destruct (Hj s Sj) as [k' [m' [Ok' Secj]]].
+    rewrite Ok in Ok'. inversion Ok'; subst k' m'.
+    destruct (group_atomic thread lockinst loc tr k t l m i j w u x wr a f Hc Seci Secj Hiw Hwj Ew Hut Hh) as [Hm Hwr].
+    subst m. split; auto. exists k. split; auto.
+  Qed.
+End TableGroup.
+
+(* counters: what counter_ok establishes about the table *)
+Lemma counter_ok_ops : forall tbl, forallb counter_ok tbl = true ->
+    forall s ops, In s tbl -> lookup_counter (s_type s) (s_field s) counters = Some ops -> s_fresh s = false ->
+      s_atomic s = true /\ existsb (aop_eqb (s_op s)) ops = true.
+Proof.
+  intros tbl H s ops Hin Hl Hf. rewrite forallb_forall in H. specialize (H s Hin).
+  unfold counter_ok in H. rewrite Hl, Hf in H. simpl in H. apply andb_true_iff in H. exact H.
+Qed.
+
